@@ -98,6 +98,10 @@ def _join_attachment(ns_soap_env, href_id, envelope, payload, prefix=True,
             message = child
             break
 
+    if message is None:
+        # nothing an attachment could be referenced from
+        return envelope, 0
+
     idprefix = ''
 
     if prefix:
@@ -176,7 +180,9 @@ def collapse_swa(ctx, content_type, ns_soap_env, parser_kwargs=None):
         # detect main soap section
         if (part.get('Content-ID') and part.get('Content-ID') == root) or \
                 (root is None and part == msg.get_payload()[0]):
-            soapmsg = part.get_payload()
+            # bytes, whatever the part declares (or fails to declare) about
+            # its charset and transfer encoding
+            soapmsg = part.get_payload(decode=True)
             continue
 
         # binary packages
